@@ -1156,7 +1156,12 @@ where
             .try_for_each(|byte| self.native_gadget.assert_equal_to_fixed(layouter, byte, false))?;
         let bits = bits[0..nb_bits].to_vec();
         if enforce_canonical && nb_bits >= K::NUM_BITS as usize {
-            let canonical = self.is_canonical(layouter, &bits)?;
+            // Canonicity is a statement about the NUM_BITS low bits (`is_canonical`
+            // answers false on longer inputs); the bits above them must be zero.
+            let (low, high) = bits.split_at(K::NUM_BITS as usize);
+            high.iter()
+                .try_for_each(|b| self.native_gadget.assert_equal_to_fixed(layouter, b, false))?;
+            let canonical = self.is_canonical(layouter, low)?;
             self.assert_equal_to_fixed(layouter, &canonical, true)?;
         }
         Ok(bits)
